@@ -24,6 +24,7 @@ META = {
     'assumptions': ['ref/si_units.json was typed from the SI brochure / 1959 agreement / IEC 80000-13, not generated '
                     'from the repository; a unit missing from it is reported as uncovered, not as a violation'],
 }
+META['bounds'].append('after 5 kinds of user declarations (clashing symbols in other types / classes / currencies, further units, a further temperature converter): 8 catalogue symbols, temperature equivalents')
 
 
 def setup(mode):
